@@ -12,6 +12,7 @@ white-listed part of package `strings`); both are exercised on every run by exec
 generated definitions in the driver against the real functions.
 -/
 import CM.Generated.Fn
+import CM.Props.C03
 import CM.Model.Lookup
 namespace CM.Tie.FnC03
 open CM.Go CM.Lookup
@@ -117,5 +118,19 @@ theorem C03_tie_fn_expiresAt (na : Int) :
 lower-casing on ASCII — for other input the harness hands the model Go's own result) -/
 theorem C03_tie_fn_normalizedName (serverName : Str) :
     CM.Gen.Fn.normalizedName serverName = CM.Lookup.normASCII serverName := rfl
+
+/-! ### the property theorem, about the printed definition -/
+
+/-- **C03_covers_iff_matchWildcard, of the code as printed**: the definition translated from `MatchWildcard` on
+this run accepts (subject, wildcard) iff, after lower-casing, the wildcard is the subject itself or the subject
+with its leftmost 1…k labels replaced by `*` (subjects without empty labels). -/
+theorem C03_fn_MatchWildcard_covers (subject wildcard : Str)
+    (hn : ∀ l ∈ splitDot (strings_ToLower subject), l ≠ []) :
+    CM.Gen.Fn.MatchWildcard subject wildcard = true ↔
+      (strings_ToLower subject = strings_ToLower wildcard ∨
+       ∃ k, 1 ≤ k ∧ k ≤ (splitDot (strings_ToLower subject)).length ∧
+         strings_ToLower wildcard = wildAt (strings_ToLower subject) k) := by
+  rw [C03_tie_fn_MatchWildcard]
+  exact C03_covers_iff_matchWildcard _ _ hn
 
 end CM.Tie.FnC03
